@@ -74,6 +74,9 @@ impl Db {
         }
         conn.create_scalar_function("char_length", 1, det, |ctx| Ok(match ctx.get_raw(0) { ValueRef::Text(t) => SV::Integer(String::from_utf8_lossy(t).chars().count() as i64), ValueRef::Null => SV::Null, _ => SV::Null })).unwrap();
         // CONCAT (SQLite gets it in 3.44): PostgreSQL semantics, NULL arguments are ignored
+        // SQLite's own UPPER / LOWER fold ASCII letters only; PostgreSQL (the reference semantics) folds every letter
+        conn.create_scalar_function("upper", 1, det, |ctx| Ok(match ctx.get_raw(0) { ValueRef::Text(t) => SV::Text(String::from_utf8_lossy(t).to_uppercase()), ValueRef::Null => SV::Null, ValueRef::Integer(i) => SV::Text(i.to_string()), ValueRef::Real(f) => SV::Text(f.to_string()), _ => SV::Null })).unwrap();
+        conn.create_scalar_function("lower", 1, det, |ctx| Ok(match ctx.get_raw(0) { ValueRef::Text(t) => SV::Text(String::from_utf8_lossy(t).to_lowercase()), ValueRef::Null => SV::Null, ValueRef::Integer(i) => SV::Text(i.to_string()), ValueRef::Real(f) => SV::Text(f.to_string()), _ => SV::Null })).unwrap();
         conn.create_scalar_function("concat", -1, det, |ctx| {
             let mut s = String::new();
             for i in 0..ctx.len() { match ctx.get_raw(i) { ValueRef::Null => {}, ValueRef::Text(t) => s.push_str(&String::from_utf8_lossy(t)), ValueRef::Integer(i) => s.push_str(&i.to_string()), ValueRef::Real(f) => s.push_str(&f.to_string()), ValueRef::Blob(_) => {} } }
